@@ -293,4 +293,4 @@ if __name__ == '__main__':
         assumptions=['each transaction atomic and isolated; pre-emption only '
                      'between transactions; interleavings enumerated as '
                      'paths, generations/numbers symbolic within each'],
-        quick_budget=170, thorough_budget=1700))
+        quick_budget=420, thorough_budget=2400))
